@@ -114,6 +114,38 @@ func blsLongDesc() *blsDesc[tG2, tF2, tG1, tF1, tGt, tBSc] {
 	}
 }
 
+// planBLS: pairings cost tens of milliseconds each in the pure-Go build and one run verifies every partial-signature component in
+// every aggregator, so the quick tier thins the matrix: of the three replicated policies one (rotating with the variant/mode
+// combination and the seed) gets EVERY qualified quorum - on a dealt key for the short-key combinations and on a Gennaro key for
+// the long-key ones, alternating with the seed - the other two a minimal and a non-minimal one, the remaining policies one
+// minimal and one unqualified quorum. The thorough tier runs the full planCheap matrix.
+func planBLS(combo, r int) []planItem {
+	if thor {
+		return planCheap(combo+r, nil)
+	}
+	out := []planItem{}
+	full := replicatedPolicies[(combo+int(seed)+r)%len(replicatedPolicies)]
+	src := ((combo / 3) + int(seed) + r) % 2
+	for pi, np := range rotatedPolicies(combo + r) {
+		rot := pi + combo + int(seed)
+		switch {
+		case np.Name == full:
+			for qi, q := range quorumCases(np, -1, 0, 2, rot) {
+				out = append(out, planItem{np, q, src, pi, qi})
+			}
+		case isReplicated(np):
+			for qi, q := range quorumCases(np, 1, 1, 1, rot) {
+				out = append(out, planItem{np, q, 1 - src, pi, qi})
+			}
+		default:
+			for qi, q := range quorumCases(np, 1, 0, 1, rot) {
+				out = append(out, planItem{np, q, pi + combo + int(seed), pi, qi})
+			}
+		}
+	}
+	return out
+}
+
 func signBLS(r int) {
 	signBLSOn(blsShortDesc(), r, 0)
 	signBLSOn(blsLongDesc(), r, 1)
@@ -125,7 +157,7 @@ func signBLSOn[
 	E algebra.MultiplicativeGroupElement[E], S algebra.PrimeFieldElement[S],
 ](d *blsDesc[PK, PKFE, SG, SGFE, E, S], r, vi int) {
 	for mi, mode := range blsModes {
-		for _, it := range planCheap(vi*3+mi+r, []int{(vi + mi + int(seed)) % 2}) {
+		for _, it := range planBLS(vi*3+mi, r) {
 			msgClass := []string{"short", "kib", "short", "kib", "empty"}[(it.pi+it.qi+r+mi)%5]
 			name := fmt.Sprintf("sign:bls:%s-%s:%s:%s", d.name, mode.name, it.np.Name, it.q.kind)
 			if !takeCase(name) {
@@ -245,12 +277,19 @@ func blsLine[
 		}
 	}
 	subs := []any{}
+	qualifiedTried := 0
 	if a, err := d.aggr(shards[outsider].PublicKeyMaterial(), alg); err == nil {
 		for _, s := range subsetsOf(sortedIDs(q.ids)) {
 			// an unqualified sub-collection is refused before any pairing is computed; of the qualified ones (each costs the
 			// verification of all its members) those that drop exactly one member are tried
 			if len(s) == len(q.ids) || (as.IsQualified(s...) && len(s) != len(q.ids)-1) {
 				continue
+			}
+			if as.IsQualified(s...) {
+				if !thor && qualifiedTried >= 1 { // quick tier: one qualified sub-collection per run
+					continue
+				}
+				qualifiedTried++
 			}
 			sig, err := a.Aggregate(toMap(s), msg)
 			row := map[string]any{"set": ad.IDsU(s), "ok": err == nil, "tok": 0}
